@@ -631,6 +631,83 @@ def gen_oprec():
            f"def opKindDefault : List Nat := {bytes_lit(dm.group(1))}", "", "end Nun.Gen", ""]
     return "\n".join(out)
 
+# the key record and the value record of the data files (storage/disk.rs): what `write_key` / `write_value` write, in order — (expression,
+# bytes; 0 = the raw bytes of a text) —, in which order and into which buffers the loader reads them back, the size constants, the status
+# codes, the status every call site of write_value passes, and where `update_key` writes inside a stored key record
+def gen_diskrec():
+    text = blank(src("storage/disk.rs"))
+    consts = {}
+    for m in re.finditer(r"const\s+(\w+)\s*:\s*(?:usize|i32|u64)\s*=\s*(-?\d+)\s*;", text): consts[m.group(1)] = int(m.group(2))
+    for k in ("VERSION_SIZE", "U64_SIZE", "ADDR_SIZE", "VERSION_DELETED"):
+        if k not in consts: raise ExtractError(f"disk record constants: {k} missing")
+    def writer(fn, hdr, what):
+        raw, b = fn_body("storage/disk.rs", hdr, what)
+        rows = []
+        for m in re.finditer(r"\w+\s*\.\s*write(?:_all)?\s*\(\s*&\s*([^;]+?)\s*\)\s*\.\s*unwrap", b):
+            e = re.sub(r"\s+", "", m.group(1))
+            if e.endswith(".to_le_bytes()"):
+                e = e[: -len(".to_le_bytes()")]
+                if e == "len" or e.endswith(".len()"): w = 8
+                elif e.endswith(".version"): w = 4
+                elif e == "status": w = 4
+                elif e.endswith("_addr"): w = 8
+                else: raise ExtractError(f"{what}: width of `{e}` unknown")
+                rows.append((e, w))
+            else:
+                rows.append((e, 0))
+        if not rows: raise ExtractError(f"{what}: no writes found")
+        return rows
+    keyw = writer("write_key", r"fn write_key\s*\(", "key record writer")
+    valw = writer("write_value", r"fn write_value\s*\(", "value record writer")
+    # the loader
+    raw, b = fn_body("storage/disk.rs", r"pub fn create_db_from_file_name\s*\(|fn create_db_from_file_name\s*\(", "data file loader")
+    bufs = []
+    for m in re.finditer(r"let\s+mut\s+(\w+)\s*=\s*(?:\[\s*0\s*;\s*(\w+)\s*\]|vec!\s*\[\s*0\s*;\s*(\w+)\s*\])", b):
+        sz = m.group(2) or m.group(3)
+        bufs.append((m.group(1), consts.get(sz, 0) if not sz.isdigit() else int(sz), sz))
+    reads = [(m.group(1), m.group(2)) for m in re.finditer(r"(keys_file|values_file)\s*\.\s*read(?:_exact)?\s*\(\s*&mut\s+(\w+)\s*\)", b)]
+    seeks = re.findall(r"values_file\s*\.\s*seek\s*\(\s*SeekFrom::Start\s*\(\s*(\w+)", b)
+    if len(reads) < 6 or not seeks: raise ExtractError("data file loader: reads / seek not found")
+    # status codes and call sites
+    rawb = blank(src("bo.rs"))
+    sm = re.search(r"impl ValueStatus \{\s*pub fn to_le_bytes[^{]*\{(.*?)\n    \}", rawb, re.S)
+    codes = [(m.group(1), int(m.group(2))) for m in re.finditer(r"ValueStatus::(\w+)\s*=>\s*\(\s*(\d+)\s+as\s+i32\s*\)", sm.group(1))] if sm else []
+    if not codes: raise ExtractError("ValueStatus::to_le_bytes: codes not found")
+    calls = re.findall(r"write_value\s*\([^;]*?ValueStatus::(\w+)\s*\)", text)
+    ncalls = len(re.findall(r"(?<!fn )write_value\s*\(", text))
+    if not calls or len(calls) != ncalls: raise ExtractError(f"write_value call sites: {ncalls} calls, {len(calls)} with a literal status")
+    # update_key
+    raw, b = fn_body("storage/disk.rs", r"fn update_key\s*\(", "in-place key update")
+    st = re.search(r"let\s+start_at\s*=\s*([^;]+);", b)
+    ups = [(re.sub(r"\s+", "", m.group(1)), re.sub(r"\s+", " ", m.group(2).strip())) for m in re.finditer(r"\.\s*write_at\s*\(\s*&\s*(\w+)\s*\.\s*to_le_bytes\s*\(\s*\)\s*,\s*([^)]+)\)", b)]
+    if not st or len(ups) != 2: raise ExtractError("in-place key update: start_at / two write_at calls not found")
+    ks = re.search(r"fn get_key_disk_size\s*\([^)]*\)\s*->\s*u64\s*\{\s*\(([^)]*)\)\s*as\s+u64", text)
+    if not ks: raise ExtractError("get_key_disk_size: formula not found")
+    terms = [t.strip() for t in ks.group(1).split("+")]
+    pl = lambda rows: "[" + ", ".join(f"({bytes_lit(a)}, {n})" for a, n in rows) + "]"
+    out = ["namespace Nun.Gen", "",
+           "/-- VERSION_SIZE, U64_SIZE, ADDR_SIZE of storage/disk.rs; VERSION_DELETED -/",
+           f"def diskSizes : List Nat := [{consts['VERSION_SIZE']}, {consts['U64_SIZE']}, {consts['ADDR_SIZE']}]",
+           f"def versionDeleted : Int := {consts['VERSION_DELETED']}", "",
+           "/-- `write_key`: (expression, bytes; 0 = raw text), in order — " + ", ".join(f"{a}:{n}" for a, n in keyw) + " -/",
+           f"def keyRecWriter : List (List Nat × Nat) := {pl(keyw)}", "",
+           "/-- `write_value` — " + ", ".join(f"{a}:{n}" for a, n in valw) + " -/",
+           f"def valueRecWriter : List (List Nat × Nat) := {pl(valw)}", "",
+           "/-- `get_key_disk_size(key_size)`: the terms of the sum -/",
+           "def keyDiskSizeTerms : List (List Nat) := [" + ", ".join(bytes_lit(t) for t in terms) + "]", "",
+           "/-- the loader: (file, buffer) of every read, in order — " + ", ".join(f"{a}<{c}" for a, c in reads) + "; the values file is positioned at `" + seeks[0] + "` first -/",
+           "def loaderReads : List (List Nat × List Nat) := [" + ", ".join(f"({bytes_lit(a)}, {bytes_lit(c)})" for a, c in reads) + "]",
+           f"def loaderSeeksTo : List Nat := {bytes_lit(seeks[0])}",
+           "/-- (buffer, fixed size — 0 when sized by a length read before —, the size expression) -/",
+           "def loaderBuffers : List (List Nat × Nat × List Nat) := [" + ", ".join(f"({bytes_lit(a)}, {n}, {bytes_lit(e)})" for a, n, e in bufs) + "]", "",
+           "/-- `ValueStatus::to_le_bytes`: (status, the i32 written); and the status each call of write_value passes -/",
+           f"def statusCodes : List (List Nat × Nat) := {pl(codes)}",
+           "def writeValueCallStatuses : List (List Nat) := [" + ", ".join(bytes_lit(c) for c in calls) + "]", "",
+           "/-- `update_key`: `start_at = " + re.sub(r"\s+", " ", st.group(1).strip()) + "`; (what is written, where) -/",
+           f"def updateKeyStart : List Nat := {bytes_lit(re.sub(chr(92) + 's+', ' ', st.group(1).strip()))}",
+           "def updateKeyWrites : List (List Nat × List Nat) := [" + ", ".join(f"({bytes_lit(a)}, {bytes_lit(c)})" for a, c in ups) + "]", "", "end Nun.Gen", ""]
+    return "\n".join(out)
+
 def write(name, text):
     os.makedirs(OUT, exist_ok=True)
     p = os.path.join(OUT, name)
@@ -640,7 +717,7 @@ def write(name, text):
 
 def main():
     errors = []
-    for name, fn in [("Lits.lean", gen_lits), ("Guards.lean", gen_guards), ("PanicSites.lean", gen_panic_sites), ("Atomic.lean", gen_atomic), ("Close.lean", gen_close), ("Notify.lean", gen_notify), ("Commands.lean", gen_commands), ("Trailers.lean", gen_trailers), ("Flag.lean", gen_flag), ("OpRec.lean", gen_oprec)]:
+    for name, fn in [("Lits.lean", gen_lits), ("Guards.lean", gen_guards), ("PanicSites.lean", gen_panic_sites), ("Atomic.lean", gen_atomic), ("Close.lean", gen_close), ("Notify.lean", gen_notify), ("Commands.lean", gen_commands), ("Trailers.lean", gen_trailers), ("Flag.lean", gen_flag), ("OpRec.lean", gen_oprec), ("DiskRec.lean", gen_diskrec)]:
         try:
             write(name, "-- GENERATED by extract/extract.py from /repo/src — do not edit\n" + fn())
         except ExtractError as e:
